@@ -188,11 +188,17 @@ def histKeys (m : HeapSt) : List (String × Nat) → Option (HeapSt × List Hist
       | none => none
       | some (m'', es) => some (m'', ⟨p, k, v⟩ :: es)
 
-/-- `hist.iter().map(..).collect()`: the `Vec<CHistElem>` is allocated with capacity = number of
-entries (exact size hint), then filled; `length = len`, `size = capacity`; the `Vec` is leaked. -/
+/-- Capacity `Vec::from_iter` gives for an iterator of `n` items that is not `TrustedLen`
+(`hash_map::Iter` mapped): nothing for an empty one, else `max(MIN_NON_ZERO_CAP, n + 1)` with
+`MIN_NON_ZERO_CAP = 4` for 16-byte elements.  This is a fact about the standard library the crate is
+built with; it is observed by the harness, and nothing proved below depends on its value. -/
+def histCap (n : Nat) : Nat := if n = 0 then 0 else max 4 (n + 1)
+
+/-- `hist.iter().map(..).collect()`: the `Vec<CHistElem>` is allocated, then filled (one `to_cstring`
+per key); `length = len`, `size = capacity` (≠ len in general); the `Vec` is leaked. -/
 def histogram (m : HeapSt) (hist : List (String × Nat)) : Option (HeapSt × CResult) :=
-  let (m1, p) := vecAlloc m hist.length HIST_ELEM_SIZE HIST_ELEM_ALIGN
-  (histKeys m1 hist).map fun (m2, es) => (m2, ⟨p, hist.length, hist.length, RESULT_HISTOGRAM, .hist es⟩)
+  let (m1, p) := vecAlloc m (histCap hist.length) HIST_ELEM_SIZE HIST_ELEM_ALIGN
+  (histKeys m1 hist).map fun (m2, es) => (m2, ⟨p, hist.length, histCap hist.length, RESULT_HISTOGRAM, .hist es⟩)
 
 /-- `state.to_vec()` leaked: `length = len`, `size = capacity = len`. -/
 def cState (m : HeapSt) (ws : List Nat) : HeapSt × CResult :=
@@ -227,16 +233,23 @@ def free (h : Heap) (r : CResult) : Except Fault Heap :=
     vecDrop h r.data r.size U64_SIZE U64_ALIGN
   else .ok h
 
-/-- the blocks a result owns: `(pointer, size, align)` in the order `free` releases them -/
+/-- the blocks a result owns: `(pointer, size, align)` (the array first, then the keys: the order in
+which they were allocated; `free` releases the keys first) -/
 def owned (r : CResult) : List (Ptr × Nat × Nat) :=
   if r.restype = RESULT_ERROR ∨ r.restype = RESULT_STRING then
     [(r.data, strlen (viewText r.mem) + 1, 1)]
   else if r.restype = RESULT_HISTOGRAM then
-    ((viewElems r.mem).take r.length).map (fun e => (e.key, strlen e.keyText + 1, 1)) ++
-      (if r.size * HIST_ELEM_SIZE = 0 then [] else [(r.data, r.size * HIST_ELEM_SIZE, HIST_ELEM_ALIGN)])
+    (if r.size * HIST_ELEM_SIZE = 0 then [] else [(r.data, r.size * HIST_ELEM_SIZE, HIST_ELEM_ALIGN)]) ++
+      ((viewElems r.mem).take r.length).map (fun e => (e.key, strlen e.keyText + 1, 1))
   else if r.restype = RESULT_CSTATE then
     (if r.size * U64_SIZE = 0 then [] else [(r.data, r.size * U64_SIZE, U64_ALIGN)])
   else []
+
+/-- the same as blocks; a NULL or dangling pointer owns nothing -/
+def ownedBlocks (r : CResult) : List Block :=
+  (owned r).filterMap fun
+    | (.blk id, s, a) => some ⟨id, s, a⟩
+    | _ => none
 
 end CResult
 
@@ -352,15 +365,29 @@ def Op.dupQubits : Op → Bool
   | .cond _ _ _ qs => hasDup qs
   | _ => false
 
+def Op.measureAllLen (nq : Nat) : Op → Bool
+  | .measureAll cs => cs.length != nq
+  | .peekAll cs => cs.length != nq
+  | _ => false
+
 /-- Conservative prediction of a panic inside `execute`/`reexecute` with `shots` shots. -/
-def execAbortTag (ops : List Op) (shots : Nat) : Option String :=
+def execAbortTag (nq : Nat) (ops : List Op) (shots : Nat) : Option String :=
   if ops.any (fun o => o.cbits.any (· ≥ 64)) then some "exec-cbit-ge-64"
   else if ops.any (fun o => match o with | .cond ctl _ _ _ => ctl.length ≥ 64 | _ => false) then some "exec-cond-controls-ge-64"
+  else if ops.any Op.dupQubits then some "exec-dup-qubits"
+  else if ops.any (Op.measureAllLen nq) then some "exec-measure-all-len"
   else if shots = 0 ∧ ops.any Op.touchesRegister then some "exec-zero-shots"
   else none
 
-def qasmAbortTag (ops : List Op) : Option String :=
-  if ops.any Op.arityMismatch then some "export-qasm-arity" else none
+def Op.condControlGe (nq : Nat) : Op → Bool
+  | .cond ctl _ _ _ => ctl.any (· ≥ nq) || ctl.length ≥ 64
+  | _ => false
+
+def qasmAbortTag (cq : Bool) (nq : Nat) (ops : List Op) : Option String :=
+  if ops.any Op.arityMismatch then some "export-qasm-arity"
+  else if ops.any (Op.measureAllLen nq) then some "export-qasm-measure-all-len"
+  else if cq ∧ ops.any (Op.condControlGe nq) then some "export-cqasm-cond-control-ge-nq"
+  else none
 
 def latexAbortTag (nq : Nat) (ops : List Op) : Option String :=
   if ops.any Op.dupQubits then some "export-latex-dup-qubits"
@@ -429,13 +456,13 @@ inductive Out (C : Type) where
   | abort (tag : String)
 
 structure Cfg where
-  gateTable : List (String × String × Nat × Nat × Nat)
-  condTable : List (String × String × Nat × Nat × Nat)
+  gateTable : List (String × String × Nat × Nat × Nat × Bool)
+  condTable : List (String × String × Nat × Nat × Nat × Bool)
   circSize : Nat
   circAlign : Nat
 
-def lookupGate (tbl : List (String × String × Nat × Nat × Nat)) (lname : String) :
-    Option (String × Nat × Nat × Nat) :=
+def lookupGate (tbl : List (String × String × Nat × Nat × Nat × Bool)) (lname : String) :
+    Option (String × Nat × Nat × Nat × Bool) :=
   (tbl.find? (fun r => r.1 == lname)).map (·.2)
 
 /-- `dir as u8 as char` matched against `'x'|'X'`, … -/
@@ -467,10 +494,11 @@ def addGateBody {C} (cfg : Cfg) (api : Api C) (c : Circ C) (name : Option String
   | some gateName =>
     match lookupGate cfg.gateTable gateName.toLower with
     | none => .ret c (.error (msgUnknownGate gateName))
-    | some (ty, arity, nparams, msgN) =>
-      if params.length ≠ nparams then .ret c (.error (msgNrArguments params.length msgN ty))
+    | some (ty, arity, nparams, msgN, checked) =>
+      -- only the `add_parametrized_gate!` arms look at `params` at all
+      if checked ∧ params.length ≠ nparams then .ret c (.error (msgNrArguments params.length msgN ty))
       else
-        mapRes c (api.addGate c.rust ⟨ty, params.map Param.ofC⟩ qbits)
+        mapRes c (api.addGate c.rust ⟨ty, (params.take nparams).map Param.ofC⟩ qbits)
           (fun r => { c with rust := r, ops := c.ops ++ [.gate ty arity qbits] }) none
 
 def addCondBody {C} (cfg : Cfg) (api : Api C) (c : Circ C) (control : List Nat) (target : Nat)
@@ -480,10 +508,11 @@ def addCondBody {C} (cfg : Cfg) (api : Api C) (c : Circ C) (control : List Nat) 
   | some gateName =>
     match lookupGate cfg.condTable gateName.toLower with
     | none => .ret c (.error (msgUnknownGate gateName))
-    | some (ty, arity, nparams, msgN) =>
-      if params.length ≠ nparams then .ret c (.error (msgNrArguments params.length msgN ty))
+    | some (ty, arity, nparams, msgN, checked) =>
+      -- only the `add_parametrized_gate!` arms look at `params` at all
+      if checked ∧ params.length ≠ nparams then .ret c (.error (msgNrArguments params.length msgN ty))
       else
-        mapRes c (api.addConditionalGate c.rust control target ⟨ty, params.map Param.ofC⟩ qbits)
+        mapRes c (api.addConditionalGate c.rust control target ⟨ty, (params.take nparams).map Param.ofC⟩ qbits)
           (fun r => { c with rust := r, ops := c.ops ++ [.cond control ty arity qbits] }) none
 
 /-- an entry point called with a live, non-NULL handle -/
@@ -532,18 +561,18 @@ def entry {C} (cfg : Cfg) (api : Api C) (mem : Mem) (c : Circ C) : Call → Out 
     match api.execute mem c.rust n with
     | .ok r => .ret { c with rust := r, shots := some n } .empty
     | .err msg => .ret { c with shots := some n } (.error msg)
-    | .panic => .abort ((execAbortTag c.ops n).getD "unpredicted")
+    | .panic => .abort ((execAbortTag c.nq c.ops n).getD "unpredicted")
   | .reexecute _ =>
     mapRes c (api.reexecute mem c.rust) (fun r => { c with rust := r })
-      (match c.shots with | some n => execAbortTag c.ops n | none => none)
+      (match c.shots with | some n => execAbortTag c.nq c.ops n | none => none)
   | .histogram _ =>
     match api.histogramString c.rust with
     | .ok h => .ret c (.histogram h)
     | .err msg => .ret c (.error msg)
     | .panic => .abort "unpredicted"
   | .latex _ => mapStr c (api.latex mem c.rust) (latexAbortTag c.nq c.ops)
-  | .openQasm _ => mapStr c (api.openQasm mem c.rust) (qasmAbortTag c.ops)
-  | .cQasm _ => mapStr c (api.cQasm mem c.rust) (qasmAbortTag c.ops)
+  | .openQasm _ => mapStr c (api.openQasm mem c.rust) (qasmAbortTag false c.nq c.ops)
+  | .cQasm _ => mapStr c (api.cQasm mem c.rust) (qasmAbortTag true c.nq c.ops)
   | _ => .abort "not-an-entry-point-with-handle"
 
 /-- an entry point called with a NULL handle: an error result, or — where ffi.rs uses
